@@ -7,7 +7,7 @@ CONSTANTS
   Starts = {0, 1, 2, 4}
   Timeouts = {0, 4, 6, 9}
   Thrs = {0, 2, 4}
-  MinHs = {0, 9, 13}
+  MinHs = {0, 12, 13}
   Alwayss = {0, 6, 14}
   Implicit = {1, 2}
   MaxBlocks = 22
